@@ -76,6 +76,10 @@ func Excluded(key string) bool {
 }
 
 func NewUnit(name string, journal bool) *Unit {
+	// the driver may run one test function as several units (e.g. one per cache size)
+	if env := os.Getenv("VERIF_UNIT"); env != "" && !strings.HasSuffix(name, ".replay") {
+		name = env
+	}
 	u := &Unit{name: name, seen: map[uint64]struct{}{}, start: time.Now(), outDir: OutDir(), journal: journal}
 	u.st.Unit = name
 	u.st.Classes = map[string]int{}
